@@ -28,7 +28,11 @@ fn noexec(_: &[Tok]) -> Vec<Tok> {
     vec![Tok::N(0xbad0bad)]
 }
 
-pub const SUITES: &[Suite] = &[Suite { name: "C18xen", gen, exec }, Suite { name: "C18", gen: nogen, exec: noexec }];
+pub const SUITES: &[Suite] = &[
+    Suite { name: "C18xen", gen, exec },
+    Suite { name: "C18", gen: nogen, exec: noexec },
+    Suite { name: "C18huge", gen: nogen, exec: noexec },
+];
 
 const FILL: u8 = 0xaa;
 const SRC: u8 = 0x5a;
